@@ -395,7 +395,63 @@ def cis(theta):
             return Cx(1, 0)
         theta = Z(theta)
     theta = R(theta)
+    j = _quarter_turns(theta)
+    if j is not None:
+        # exp(i (pi/2) j) for an integer j is exactly i^j: no uninterpreted value needed, and
+        # arguments that differ by whole turns (n versus n mod 4) denote the same number
+        r = j % 4
+        return Cx(z3.If(r == 0, z3.RealVal(1), z3.If(r == 2, z3.RealVal(-1), z3.RealVal(0))),
+                  z3.If(r == 1, z3.RealVal(1), z3.If(r == 3, z3.RealVal(-1), z3.RealVal(0))))
     return Cx(_cosf(theta), _sinf(theta))
+
+
+def _as_int_term(e):
+    """Int term equal to the Real term e when e is structurally an integer combination, else None."""
+    if z3.is_rational_value(e):
+        return z3.IntVal(e.numerator_as_long()) if e.denominator_as_long() == 1 else None
+    if z3.is_int_value(e):
+        return e
+    if z3.is_app(e):
+        k = e.decl().kind()
+        if k == z3.Z3_OP_TO_REAL:
+            return e.arg(0)
+        if k in (z3.Z3_OP_ADD, z3.Z3_OP_MUL, z3.Z3_OP_SUB, z3.Z3_OP_UMINUS):
+            parts = [_as_int_term(c) for c in e.children()]
+            if any(p is None for p in parts):
+                return None
+            if k == z3.Z3_OP_ADD:
+                return z3.Sum(parts)
+            if k == z3.Z3_OP_MUL:
+                out = parts[0]
+                for p_ in parts[1:]:
+                    out = out * p_
+                return out
+            if k == z3.Z3_OP_SUB:
+                out = parts[0]
+                for p_ in parts[1:]:
+                    out = out - p_
+                return out
+            return -parts[0]
+    return None
+
+
+def _quarter_turns(theta):
+    """Int term j with theta == (PI/2) * j, when theta has that shape syntactically; else None."""
+    try:
+        if not any(True for _ in [0]) or "PI" not in theta.sexpr():
+            return None
+        t0 = z3.simplify(z3.substitute(theta, (PI, z3.RealVal(0))))
+        if not (z3.is_rational_value(t0) and t0.numerator_as_long() == 0):
+            return None
+        t1 = z3.simplify(z3.substitute(theta, (PI, z3.RealVal(1))) * 2, som=True)
+        if "PI" in t1.sexpr():
+            return None
+        lin = z3.simplify(theta - PI * (t1 / 2), som=True)
+        if not (z3.is_rational_value(lin) and lin.numerator_as_long() == 0):
+            return None
+        return _as_int_term(t1)
+    except z3.Z3Exception:
+        return None
 
 
 # --------------------------------------------------------------------------- structured values
